@@ -61,6 +61,9 @@ class FakeSock:
                 a = "o" + args[0].encode().hex()
             else:
                 a = "O" + ",".join(x.encode().hex() for x in args[0])
+            if name.startswith("recv") and self.script and self.script[0] == "t":
+                # the layer reads although the descriptor is not readable: a real non-blocking socket has nothing for it
+                raise BlockingIOError("scripted: nothing to read")
             self.trace.append("S:%s:%s" % (name, a))
             if not self.script or self.script[0] == "t":
                 raise BadScript(name)
@@ -121,6 +124,14 @@ def render_end(kind, val):
 
 
 def run_case(g, case):
+    try:
+        with apilib.watchdog(case.get("watchdog", 4.0)):
+            return _run_case(g, case)
+    except apilib.Hang:
+        return "HANG the call did not come back within %.0f s" % case.get("watchdog", 4.0)
+
+
+def _run_case(g, case):
     import gufo.snmp.policer as pol
     trace = []
     saved = patch_iters(g, trace)
@@ -133,7 +144,10 @@ def run_case(g, case):
                 trace.append("P")
                 return super().get_timeout(*a, **kw)
         mod = g.sync if case["mode"] == "s" else g.asyn
-        kw = dict(addr="127.0.0.1", port=9, timeout=0.03, allow_bulk=bool(case["allow_bulk"]), max_repetitions=case["max_rep"])
+        # the only real-time element: the session timeout must outlast every wait on an already readable descriptor and is
+        # paid in full by each scripted timeout; a case that contains none gets a long one
+        tmo = case.get("timeout") or (0.15 if "t" in case["script"] else 5.0)
+        kw = dict(addr="127.0.0.1", port=9, timeout=tmo, allow_bulk=bool(case["allow_bulk"]), max_repetitions=case["max_rep"])
         if case["pol"]:
             kw["policer"] = CountingPolicer(1e6)
         if case["ver"] == "v3":
